@@ -16,7 +16,8 @@ from ..gen_query import gen_document
 RULE = ("response bodies from the spec grammar: `data` absent / null / object; `errors` absent / [] / 1-5 entries, each with "
         "message and optional locations (0-3, absent / null), path (names, numeric-looking names, non-negative indices; absent / "
         "null / []), extensions (arbitrary nested JSON incl. big integers, floats, nulls; absent / null); top-level extensions; "
-        "unknown members at every level; compact and pretty texts with non-ASCII and escapes. Also Response<generated "
+        "unknown members at every level; compact and pretty texts with non-ASCII and escapes; every body through from_str, "
+        "from_value, from_slice and from_reader (borrowed, owned and transient strings). Also Response<generated "
         "ResponseData> through compiled consumer code, and a subset of bodies under Miri. Non-trivial = body with >= 1 error "
         "having a path or locations, or unknown members; distinct by body text")
 
@@ -204,6 +205,10 @@ def judge_body(run, bid, text, body, exp, st, ob, via=""):
             sym = "deserialize(serialize(r)) != r (value route %s, string route %s)" % (ob.get("rt_value"), ob.get("rt_str"))
         elif not ob.get("via_value"):
             sym = "from_str and from_value disagree on the same body"
+        elif not (ob.get("via_slice") and ob.get("via_reader")):
+            sym = "from_str accepts the body, from_slice / from_reader give another result (slice %s, reader %s)" % (ob.get("via_slice"), ob.get("via_reader"))
+        elif not ob.get("rt_reader"):
+            sym = "deserialize(serialize(r)) != r when the bytes are read back through a reader"
         else:
             for i, (e, disp) in enumerate(zip(exp.get("errors") or [], ob.get("displays") or [])):
                 run.count("errors-checked")
@@ -351,6 +356,8 @@ def typed(run):
                     d = envelope_same({k: x for k, x in r.items() if k != "data"}, {k: x for k, x in exp.items() if k != "data"})
                     if d:
                         sym = "typed envelope: " + d
+                    elif isinstance(ob.get("rdr"), dict) and (not ob["rdr"].get("ok") or ob["rdr"].get("reser") != r):
+                        sym = "typed envelope through from_reader differs from from_value: %s" % json.dumps(ob["rdr"])[:160]
             if sym:
                 one = dict(c)
                 one["vectors"] = [v]
